@@ -10,7 +10,7 @@ REPLAY = os.environ.get('VERIF_REPLAY_DIR') or os.path.join(VERIF, 'replays')
 
 def D_HOSTILE():
     from corpus import decls
-    return decls.HOSTILE
+    return decls.HOSTILE + ['crate-level trait impls for primitives v1']
 
 TRUSTED_BASE = [
     'rustc (nightly) type checker, MIR builder, resolver and const-evaluator; factdump only serialises their output',
